@@ -29,6 +29,7 @@ pub struct Monitors {
     pub ever: BTreeSet<(u64, u64)>,
     pub allocated_prev: BTreeMap<u64, Bits>,
     pub fault_budget: u32,
+    pub fees: crate::fees::Fees,
 }
 
 impl Monitors {
@@ -42,6 +43,13 @@ impl Monitors {
             ever: BTreeSet::new(),
             allocated_prev: BTreeMap::new(),
             fault_budget: 0,
+            fees: {
+                let mut f = crate::fees::Fees::default();
+                for m in w.miners.iter().filter(|m| !m.whale) {
+                    f.note_creation(m.addr.id().unwrap(), w.v.epoch(), &m.creation_deposit);
+                }
+                f
+            },
         }
     }
 
@@ -53,6 +61,7 @@ impl Monitors {
         for m in snaps {
             check_bookkeeping(policy, m, o, when);
             check_ledgers(m, o, when);
+            self.fees.check_vesting(m, w.v.epoch(), after_tick.is_some() && m.deadline_cron_active && self.cron.callback_seen.contains(&m.id), o, when);
             // sector-number history
             let prev = self.allocated_prev.entry(m.id).or_default();
             if !prev.is_subset(&m.allocated) {
@@ -228,6 +237,8 @@ pub struct HistCfg {
     pub fault_prob: u32,
     /// C05: re-run ticks from a snapshot with each nested send site failing in turn
     pub enumerate_faults: bool,
+    /// after the ops, run on for this many days (C14: whole vesting schedules)
+    pub tail_days: i64,
 }
 
 /// run the cron up to `to`, running all monitors after every tick
@@ -236,7 +247,7 @@ pub fn advance_monitored(w: &MinerWorld, mon: &mut Monitors, to: ChainEpoch, den
         // one deadline (or less) at a time so that whale maintenance can be interleaved
         let chunk_to = std::cmp::min(to, w.v.epoch() + 60);
         whale_maintenance(w, o);
-        let mut pending: Vec<(ChainEpoch, Inv, bool, Vec<MinerSnap>, Claims, Claims)> = vec![];
+        let mut pending: Vec<(ChainEpoch, Inv, bool, Vec<MinerSnap>, Claims, Claims, Vec<MinerSnap>)> = vec![];
         let mut pre = snaps(w);
         let mut claims_pre = power_claims(&w.v).0;
         if mon.fault_budget > 0 && !dense {
@@ -285,13 +296,14 @@ pub fn advance_monitored(w: &MinerWorld, mon: &mut Monitors, to: ChainEpoch, den
         }
         advance_miners(&w.v, chunk_to, dense, &mut |at, inv, ok| {
             let claims_after = power_claims(&w.v).0;
-            pending.push((at, inv.clone(), ok, std::mem::take(&mut pre), std::mem::take(&mut claims_pre), claims_after.clone()));
-            pre = snaps(w);
+            let post_snaps = snaps(w);
+            pending.push((at, inv.clone(), ok, std::mem::take(&mut pre), std::mem::take(&mut claims_pre), claims_after.clone(), post_snaps.clone()));
+            pre = post_snaps;
             claims_pre = claims_after;
         });
         // evaluate ticks (snapshots after each tick are the `pre` of the next; re-snapshot at the end)
         let n = pending.len();
-        for (k, (at, inv, ok, pre_snaps, claims_before, claims_after)) in pending.into_iter().enumerate() {
+        for (k, (at, inv, ok, pre_snaps, claims_before, claims_after, post_snaps)) in pending.into_iter().enumerate() {
             mon.cron.check_tick(&w.v, at, &inv, ok, &claims_before, &claims_after, &mon.deposits, o);
             if std::env::var("VH_TICKLOG").is_ok() {
                 let mut line = format!("    tick at {at}:");
@@ -318,6 +330,9 @@ pub fn advance_monitored(w: &MinerWorld, mon: &mut Monitors, to: ChainEpoch, den
                         let d = deadline_at(&w.v.policy, ps.proving_period_start, at);
                         if d.last() == at {
                             mon.on_deadline_end(ps, d.index);
+                            if let Some(pp) = post_snaps.iter().find(|s| s.id == ps.id) {
+                                mon.fees.on_deadline_callback(ps, pp, i, d.index, o, &format!("tick at {at}"));
+                            }
                         }
                     }
                 }
@@ -366,7 +381,7 @@ pub fn history(index: u64, mut rng: Rng, cfg: &HistCfg, focus: &str) -> Outcome 
         }
         let mi = rng.below(n_real as u64) as usize;
         let m = w.miners[mi].clone();
-        let pre = match snap_miner(&w.v, &m.addr) {
+        let mut pre = match snap_miner(&w.v, &m.addr) {
             Some(s) => s,
             None => {
                 o.violate("state_readable", "C04/state_unreadable", format!("step {step}: miner {} state cannot be decoded", m.addr));
@@ -383,7 +398,7 @@ pub fn history(index: u64, mut rng: Rng, cfg: &HistCfg, focus: &str) -> Outcome 
         let w_pre = if live.len() + precommitted.len() < 6 { 22 } else { 6 };
         let w_prove = if !ready.is_empty() { 30 } else if !precommitted.is_empty() { 12 } else { 0 };
         let w_post = if live.is_empty() { 0 } else { 30 };
-        let kind = rng.weighted(&[w_pre, w_prove, w_post, 7, 8, 4, 5, 3, 2, 5, 4, 18, 3, 2]);
+        let kind = rng.weighted(&[w_pre, w_prove, w_post, 7, 8, 4, 5, 3, 2, 5, 4, 18, 3, 2, 3]);
         let (name, r, inv): (&'static str, vm_api::MessageResult, Option<Inv>) = match kind {
             0 => {
                 let n = 1 + rng.below(4);
@@ -415,13 +430,13 @@ pub fn history(index: u64, mut rng: Rng, cfg: &HistCfg, focus: &str) -> Outcome 
                     if stop {
                         break;
                     }
+                    pre = snap_miner(&w.v, &m.addr).unwrap();
                 }
                 let (r, i) = prove_commit(&w.v, &m, &caller, &nums, &bad, rng.chance(1, 4));
                 ("prove_commit", r, i)
             }
             2 => {
                 // PoSt: for the open deadline if it holds sectors, else travel to the next deadline that does
-                let mut pre = pre.clone();
                 let mut dl = dl;
                 if pre.deadlines[dl.index as usize].live_sectors == 0 || epoch <= dl.open || rng.chance(1, 4) {
                     let with: Vec<u64> = (0..48u64).filter(|i| pre.deadlines[*i as usize].live_sectors > 0).collect();
@@ -591,6 +606,53 @@ pub fn history(index: u64, mut rng: Rng, cfg: &HistCfg, focus: &str) -> Outcome 
                 let (r, i) = prove_commit_ni(&w.v, &m, &caller, &cand[..n], exp, rng.below(48));
                 ("prove_commit_ni", r, i)
             }
+            14 => {
+                // consensus fault report; judged with and without the reporter's payment failing
+                let reporter = *rng.pick(&w.others);
+                let target = if rng.chance(9, 10) { m.addr } else { w.miners[(mi + 1) % w.miners.len()].addr };
+                let fe = epoch - rng.range(-1, 300);
+                let snap0 = w.v.snapshot();
+                let judge = |w: &MinerWorld, inv: &Inv, pre: &MinerSnap, o: &mut Outcome, tag: &str| {
+                    let post = snap_miner(&w.v, &m.addr).unwrap();
+                    let rs: fil_actor_reward::State = state(&w.v, &fil_actors_runtime::REWARD_ACTOR_ADDR).unwrap();
+                    let penalty = TokenAmount::from_atto(&rs.this_epoch_reward_smoothed.position >> 128u32);
+                    let burnt = send_to_burn(inv);
+                    let mut paid = TokenAmount::zero();
+                    for i in inv.effective() {
+                        if Address::new_id(i.from) == m.addr && i.to == reporter && i.method == METHOD_SEND {
+                            paid += &i.value;
+                        }
+                    }
+                    let accounted = &burnt + &paid + (&post.fee_debt - &pre.fee_debt);
+                    o.count("consensus_fault_identity_checks");
+                    if accounted != penalty {
+                        o.violate("charged_is_burnt_or_debt", &format!("C15/consensus_fault_penalty_unaccounted:{tag}"), format!("step {step}: consensus-fault penalty {penalty} charged to miner {}; burnt {burnt} + paid to reporter {paid} + fee-debt change {} = {accounted}: the difference {} stayed with the miner", m.addr, &post.fee_debt - &pre.fee_debt, &penalty - &accounted));
+                    }
+                    let taken = &pre.balance - &post.balance;
+                    if paid > taken {
+                        o.violate("reporter_reward_bounded", "C15/reporter_reward_exceeds_amount_taken", format!("step {step}: reporter got {paid} but only {taken} left the miner"));
+                    }
+                };
+                let (r, i) = report_consensus_fault(&w.v, &m, &reporter, fe, &target);
+                if let (true, Some(inv)) = (r.code.is_success(), &i) {
+                    judge(&w, inv, &pre, &mut o, "reporter-paid");
+                    // fault enumeration: same report from the same snapshot with the payment to the reporter failing
+                    let after = w.v.snapshot();
+                    w.v.restore(&snap0);
+                    w.v.fault_rules.borrow_mut().push(crate::mvm::FaultRule::new(Some(m.addr.id().unwrap()), Some(reporter.id().unwrap()), Some(METHOD_SEND), 0, fvm_shared::error::ExitCode::SYS_OUT_OF_GAS));
+                    let (r2, i2) = report_consensus_fault(&w.v, &m, &reporter, fe, &target);
+                    w.v.clear_faults();
+                    if cfg.fault_prob > 0 {
+                        w.v.random_faults.replace(Some((index * 7919 + 13 + step as u64, cfg.fault_prob)));
+                    }
+                    o.count("consensus_fault_reruns_with_reporter_failing");
+                    if let (true, Some(inv2)) = (r2.code.is_success(), &i2) {
+                        judge(&w, inv2, &pre, &mut o, "reporter-transfer-failed");
+                    }
+                    w.v.restore(&after);
+                }
+                ("report_consensus_fault", r, i)
+            }
             _ => {
                 let amt = fil(rng.range(1, 1000));
                 let (r, i) = call0(&w.v, &m.owner, &m.addr, &amt, METHOD_SEND);
@@ -614,11 +676,14 @@ pub fn history(index: u64, mut rng: Rng, cfg: &HistCfg, focus: &str) -> Outcome 
             }
         }
         let post = snaps(&w);
+        if let (Some(inv), Some(pm)) = (&inv, post.iter().find(|s| s.id == pre.id)) {
+            mon.fees.on_message(&pre, pm, inv, r.code.is_success(), epoch, &mut o, &format!("step {step} ({name})"));
+        }
         mon.quiescent(&w, &post, inv.as_ref(), None, &mut o, &format!("step {step} ({name})"));
     }
-    // let the chain run a little so that scheduled work happens
+    // let the chain run a little (or, for vesting, a whole schedule) so that scheduled work happens
     if !stop {
-        let to = w.v.epoch() + 2 * policy.wpost_challenge_window;
+        let to = w.v.epoch() + 2 * policy.wpost_challenge_window + cfg.tail_days * DAY;
         advance_monitored(&w, &mut mon, to, cfg.dense, &mut o, &mut stop);
     }
     let proven = mon.shadow.proven.iter().filter(|k| !w.miners.iter().any(|m| m.whale && m.addr.id().unwrap() == k.0)).count() as u64;
